@@ -197,6 +197,16 @@ def main():
     seed = int(os.environ.get("VERIF_SEED", "0") or 0)
     t0 = time.time()
     evidence_path = os.path.join(VERIF, "evidence", f"{prop_id}.json")
+    # watchdog: a check that does not come back is an infrastructure failure (exit 2), never a verdict
+    import threading
+    limit = float(os.environ.get("VERIF_TIMEOUT", "2400" if tier == "quick" else "14400"))
+
+    def give_up():
+        print(f"infrastructure error: {prop_id} {tier} exceeded VERIF_TIMEOUT={limit:.0f}s", file=sys.stderr, flush=True)
+        os._exit(2)
+    wd = threading.Timer(limit, give_up)
+    wd.daemon = True
+    wd.start()
 
     broken: list[str] = []
     # 1. constants
